@@ -184,4 +184,28 @@ def matchWildcard (subject wildcard : Bytes) : Bool :=
   lowerB subject == lowerB wildcard ||
   ((lowerB wildcard).contains star && wildLoop (lowerB wildcard) [] (splitOn dot (lowerB subject)))
 
+
+/-! ### automatic HTTPS phase 2: `TLS.Manage(allCertDomains)` -/
+
+/-- `managingWildcardFor`: the candidates `labels[i] = "*"; Join(labels, ".")` of the RAW
+    subject (labels that already are `*` are skipped; the replacement is cumulative) -/
+def starCands : List Bytes → List Bytes → List Bytes
+  | _, [] => []
+  | done, l :: rest =>
+    if l == [star] then starCands (done ++ [l]) rest
+    else joinWith [dot] (done ++ [[star]] ++ rest) :: starCands (done ++ [[star]]) rest
+
+/-- `Manage` skips a subject when a wildcard that covers it is among the subjects being managed
+    (nothing is managed before, no `automate` loader): IP addresses must match exactly -/
+def coveredByManagedWildcard (names : List Bytes) (certs : List Name) (d : Name) : Bool :=
+  match names[d]? with
+  | some s =>
+    if isIP s then false
+    else (starCands [] (splitOn dot s)).any fun cand => certs.any fun e => names[e]? == some cand
+  | none => false
+
+/-- the subjects `Manage` hands to certmagic (`TLS.managing` afterwards) -/
+def managedOf (names : List Bytes) (certs : List Name) : List Name :=
+  certs.filter fun d => !coveredByManagedWildcard names certs d
+
 end CaddyModel.C11
